@@ -27,6 +27,9 @@ def run(chk, tier):
         # R04.9 'each repeated by its exact count': every quantifier adds its count to what the chain has accumulated (the width of the slot range)
         B.quantify_arith(chk, F, 'R04.9', cfg)
         B.api_table(chk, F, 'R04.9.api', cfg)
+        # R04.11 'next_call clauses flattened left to right': every tuple arity hands its elements to the assembler in index order (shared with C14)
+        from props import assembly as A_
+        A_.tuple_order(chk, F, 'R04.11', cfg)
         # R04.10 'and it then gets that slot's response': inside a pattern's slot range the response is the segment that owns the call's
         # position (greatest start <= k; a zero-count segment owns no slot) - the lookup shared with C02
         from props.c02 import segment_lookup
